@@ -401,13 +401,18 @@ func (r *FnRun) frameTerm(st *State, m string, ms *modSpec) Term {
 
 func (r *FnRun) frameGoals(o *Outcome) {
 	env := r.env(r.Entry, r.Entry)
+	env.nm = o.St
 	ms := r.modSpecOf(env, r.C)
 	if ms.all {
 		return
 	}
 	// lock-protected state may also be changed by other threads
-	for _, l := range r.C.Locks {
-		r.addProtects(env, l, ms)
+	if len(r.C.Locks) > 0 {
+		lenv := r.lockEnv(o.St)
+		lenv.nm = o.St
+		for _, l := range r.C.Locks {
+			r.addProtects(lenv, l, ms)
+		}
 	}
 	for _, m := range allArrays(o.St) {
 		if o.St.mem[m].S == r.arr(r.Entry, m).S {
